@@ -371,7 +371,10 @@ func (r *runner) execGroup(g op) bool {
 		var ok, restarted bool
 		switch a.Kind {
 		case "SD":
-			ok, restarted = r.afterWait(n.wait(func() bool { return n.freshSubs() > 0 && n.inflight == 0 }, waitQuiet, stepWatchdog), "a fresh subscription to drop")
+			// the client must be subscribed and idle: if a head reached the new subscription, let it finish that fetch first
+			ok, restarted = r.afterWait(n.wait(func() bool {
+				return n.freshSubs() > 0 && n.inflight == 0 && (!n.freshSubNotified() || r.caughtUp())
+			}, waitQuiet, stepWatchdog), "a fresh, idle subscription to drop")
 			if ok && !restarted {
 				r.barrier()
 				n.drop()
